@@ -7,6 +7,7 @@ import (
 	"bytes"
 	"encoding/hex"
 	"encoding/json"
+	"errors"
 	"fmt"
 	"reflect"
 	"sort"
@@ -33,6 +34,23 @@ type Case struct {
 	Trailer string `json:"trailer"`
 	Chunks  []int  `json:"chunks"`
 	Desc    string `json:"desc"`
+	// FailAt >= 0: before anything else the same value is encoded once into a
+	// writer which fails after FailAt bytes. Whatever that failed attempt
+	// leaves behind (buffers, pools) must not show in the encodings that follow.
+	FailAt int `json:"fail_at"`
+}
+
+// failAfter accepts n bytes, then fails.
+type failAfter struct{ n int }
+
+func (f *failAfter) Write(p []byte) (int, error) {
+	if len(p) <= f.n {
+		f.n -= len(p)
+		return len(p), nil
+	}
+	n := f.n
+	f.n = 0
+	return n, errors.New("harness: writer failed")
 }
 
 func typeOpts() gen.TypeOpts {
@@ -50,9 +68,13 @@ func genCase(t *rapid.T) Case {
 	if len(desc) > 300 {
 		desc = desc[:300] + "..."
 	}
-	return Case{Sig: ty.Sig(), Hex: hex.EncodeToString(ref.Encode(ty, v)),
+	c := Case{Sig: ty.Sig(), Hex: hex.EncodeToString(ref.Encode(ty, v)),
 		Trailer: hex.EncodeToString(rapid.SliceOfN(rapid.Byte(), 0, 6).Draw(t, "trailer")),
-		Chunks:  gen.FragPlan().Draw(t, "plan").Chunks, Desc: desc}
+		Chunks:  gen.FragPlan().Draw(t, "plan").Chunks, Desc: desc, FailAt: -1}
+	if n := len(c.Hex) / 2; n > 0 && rapid.IntRange(0, 3).Draw(t, "failfirst") == 0 {
+		c.FailAt = rapid.IntRange(0, n-1).Draw(t, "failat")
+	}
+	return c
 }
 
 func scalarClass(ty *ref.Type) string {
@@ -110,6 +132,14 @@ func checkCase(c Case) error {
 		return vt.Violationf("C03:bad-case", "reference decode: %v", err)
 	}
 	gv := bridge.ToGo(ty, v, nil)
+
+	if c.FailAt >= 0 {
+		// a failed attempt first; its outcome is not judged (an error is expected)
+		safely(func() error {
+			return encoding.NewEncoder(encoding.DefaultCap(), &failAfter{n: c.FailAt}).Encode(gv.Interface())
+		})
+		vt.Label("after-a-failed-encode")
+	}
 
 	// (a) reflection encoder against the documented layout
 	var buf bytes.Buffer
